@@ -41,6 +41,7 @@ func c14(c *core.Check) {
 	c14Dashes(c)
 	c14BookmarkWatch(c)
 	c14AttachmentLinks(c)
+	c14BackgroundDivisors(c)
 	r6 := c.Rule("R6", "no call passes two same-typed arguments under each other's parameter names (swapped arguments): every pair of arguments named after the callee's parameters is aligned with them", 85)
 	argNameRule(c, r6, "html/document", map[string]bool{"document.go": true, "draw.go": true}, 45)
 	argNameRule(c, r6, "images", nil, 20)
@@ -941,5 +942,78 @@ func c14AttachmentLinks(c *core.Check) {
 	})
 	if n == 0 {
 		r.Anchor("gatherLinksAndBookmarks: linkType = \"attachment\"")
+	}
+}
+
+// c14BackgroundDivisors: the size of a background image is a document value and may be zero (`background-size: 0`);
+// layoutBackgroundLayer divides by it to round the number of tiles.  Every floating-point division of that function
+// whose divisor is not a constant nor a converted count is reachable only where the divisor was compared `> 0`.
+func c14BackgroundDivisors(c *core.Check) {
+	p := c.Prog
+	r := c.Rule("R13", "no division by an image size of zero: in layoutBackgroundLayer every floating-point division whose divisor is a computed size (not a constant, not a converted count) is reachable only after that divisor was tested > 0 (`background-size: 0 auto; background-repeat: round` would hand the backend an infinite tile)", 4)
+	fn := p.Fn("html/layout", "layoutBackgroundLayer")
+	if fn == nil {
+		r.Anchor("html/layout.layoutBackgroundLayer")
+		return
+	}
+	n := 0
+	seen := map[string]int{}
+	core.Instrs(fn, func(in ssa.Instruction) {
+		q, ok := in.(*ssa.BinOp)
+		if !ok || q.Op != token.QUO {
+			return
+		}
+		if b, isB := q.Type().Underlying().(*types.Basic); !isB || b.Info()&types.IsFloat == 0 {
+			return
+		}
+		if _, isK := q.Y.(*ssa.Const); isK {
+			return
+		}
+		if cv, isConv := q.Y.(*ssa.Convert); isConv {
+			if bt, ok := cv.X.Type().Underlying().(*types.Basic); ok && bt.Info()&types.IsInteger != 0 {
+				return // a count: C14.R7
+			}
+		}
+		n++
+		var atoms []ssa.Value
+		pol := map[ssa.Value]bool{}
+		for _, a := range core.CondAtoms(fn) {
+			cmp, ok := a.(*ssa.BinOp)
+			if !ok {
+				continue
+			}
+			zeroY := false
+			if k, isK := core.ConstFloat(cmp.Y); isK && k == 0 {
+				zeroY = true
+			}
+			if cmp.X == q.Y && zeroY {
+				switch cmp.Op {
+				case token.GTR:
+					atoms, pol[a] = append(atoms, a), true
+				case token.LEQ, token.EQL:
+					atoms, pol[a] = append(atoms, a), false
+				}
+			}
+		}
+		ok2 := false
+		if len(atoms) > 0 {
+			ok2, _ = core.GuardedBy(fn, q.Block(), atoms, func(m map[ssa.Value]bool) bool {
+				for a, v := range m {
+					if v == pol[a] {
+						return true
+					}
+				}
+				return false
+			})
+		}
+		key := "html/layout.layoutBackgroundLayer | " + p.StmtTextAt(fn, q.Pos())
+		seen[key]++
+		if seen[key] > 1 {
+			key = fmt.Sprintf("%s #%d", key, seen[key])
+		}
+		r.Cond(ok2, key, p.Pos(q.Pos()), "divisor tested > 0", "the divisor is a size computed from the document and nothing on the way excludes zero: the quotient is infinite and reaches the backend (NewGroup(0, 0, 100, +Inf))")
+	})
+	if n == 0 {
+		r.Anchor("layoutBackgroundLayer: divisions by the image size")
 	}
 }
